@@ -65,10 +65,18 @@ Arguments Ok {A} a w.
 Arguments Fault {A} pio w.
 
 (* the dispatcher's `except` entry for PathIOError and a worker's flattened context items, from the facts *)
-Definition react_of (d : dispatcher_facts) : option (list string) :=
-  assoc_s "errors.PathIOError" (d_task_except d).
-Definition ctx_of (ws : list worker) (name : string) : list string :=
-  match find_worker name ws with Some wk => List.concat (w_ctx wk) | None => [] end.
+(* the clause of the except ladder around task.result() that a PathIOError reaches: clauses are tried in
+   order; a clause for an unrelated class (CancelledError, TimeoutError: ABOR handling) is skipped, a clause
+   for any other class met BEFORE `errors.PathIOError` may be one of its bases and makes the answer unknown *)
+Fixpoint ladder_for_pio (l : list (string * list string)) : option (list string) :=
+  match l with
+  | [] => None
+  | (c, acts) :: r =>
+      if String.eqb c "errors.PathIOError" then Some acts
+      else if String.eqb c "asyncio.CancelledError" || String.eqb c "asyncio.TimeoutError" then ladder_for_pio r
+      else None
+  end.
+Definition react_of (d : dispatcher_facts) : option (list string) := ladder_for_pio (d_task_except d).
 
 Definition is_stream (it : string) : bool := String.eqb it "stream".
 
@@ -438,6 +446,9 @@ Section F.
     | _, _ => end_fw w                                         (* not caught: `except Exception` logs, the session closes *)
     end.
 
+  Definition clear_rest (v : text) (w : fw) : fw :=
+    if is_transfer v then upd_s w (set_rest (fw_s w) 0%Z) else w.
+
   Definition fstep (w0 : fw) (e : event) : fw :=
     let w := fresh w0 in
     if s_ended (fw_s w) then w
@@ -447,11 +458,14 @@ Section F.
       match verb_handler table (e_verb e) with
       | None => reply w (code "502")
       | Some h =>
+          (* the dispatcher hands the pending restart offset to a transfer command (transfer_offset, read by
+             the worker: here the handler simply still sees s_rest) and clears restart_offset for EVERY known
+             verb - at dispatch, hence whether the command then completes, fails or raises *)
           let w1 := if is_transfer (e_verb e) then w else upd_s w (set_rest (fw_s w) 0%Z) in
           match fhandler 3 h (e_arg e) (e_data e) false w1 with
-          | Ok true w2 => w2
-          | Ok false w2 => end_fw w2
-          | Fault pio w2 => on_raise pio w2
+          | Ok true w2 => clear_rest (e_verb e) w2
+          | Ok false w2 => end_fw (clear_rest (e_verb e) w2)
+          | Fault pio w2 => on_raise pio (clear_rest (e_verb e) w2)
           end
       end.
 
